@@ -36,8 +36,9 @@ def synth(rng, interp, smax_model, field=None):
     pmax = 10 ** rng.uniform(-1.5, 0.5)
     p = np.linspace(pmax / 200, pmax, n)
     p12 = pmax * 10 ** rng.uniform(-1.3, -0.2)
-    n1 = rng.randint(4, 8)
-    pT = np.linspace(pmax / 200, pmax, n1)
+    # the T1 series has its own power grid — sometimes with as many points as the enhancement series, never the same powers
+    n1 = n if rng.random() < 0.3 else rng.randint(4, 8)
+    pT = np.linspace(pmax / 150, 0.9 * pmax, n1)
     if interp == "linear":
         slope = rng.uniform(0.0, 0.3) / pmax
         Lf = lambda q: T100 + slope * q                       # linear in power, L(0) = T100  <=>  T1(0) = T10
